@@ -57,7 +57,7 @@ type vfC18Inst struct {
 	leaks    []string
 	progress []RebalancingProgress // from the callback (background thread)
 	polled   []RebalancingProgress // from GetIncrementalRebalancingProgress (foreground)
-	names    map[string]bool        // sequential model
+	names    map[string]bool       // sequential model
 	expect   []string
 	seeded   bool
 }
